@@ -260,6 +260,7 @@ Definition check_case (c : case) : list N :=
       ++ flag 12 (rpol_is srt (sorted p))
       ++ match srt with RPol o => flag 22 (isnone (cex_equiv p o)) | RPanic => [22%N] end
       ++ flag 13 (match nkeys with Some v => N.eqb v (N.of_nat (n_keys p)) | None => false end)
+      ++ flag 23 (match nkeys with Some v => N.eqb v (N.of_nat (length (keys_of p))) | None => false end)
       ++ match mink with
          | Some m =>
              flag 14 (opt_nat_is m (min_keys p))
